@@ -167,6 +167,16 @@ def listing_case(args):
             info = await cl.stat("dir/" + t["name"])
             st.append({"name": t["name"], "type": info["type"], "size": str(info.get("size", "0")), "modify": info["modify"]})
         res["stat"] = st
+        # the same directory listed again by the same server process after time has passed (a day; more than half a year):
+        # the date form is chosen for the moment of *this* listing
+        later = now + rng.choice([86400, 200 * 86400, 400 * 86400])
+        res["later"] = later
+        aioftp.server.time = TimeProxy(later)
+        aioftp.client.datetime = datetime_proxy(later)
+        got2 = []
+        for p, info in await cl.list("dir"):
+            got2.append({"name": p.name, "type": info["type"], "size": str(info.get("size", "0")), "modify": info["modify"]})
+        res["list2"] = got2
         await cl.quit()
 
     try:
@@ -182,8 +192,8 @@ def listing_case(args):
         return {"name": g["name"], "type": g["type"], "size": g["size"] if g["type"] == "file" else "0",
                 "modify": [int(m[0:4]), int(m[4:6]), int(m[6:8]), int(m[8:10]), int(m[10:12]), int(m[12:14])]}
     cases = []
-    for what in ("list", "stat"):
-        cases.append({"kind": "listing", "format": "ls" if fallback else "mlsx", "now": now, "off": off, "truth": truth,
+    for what in ("list", "stat", "list2"):
+        cases.append({"kind": "listing", "format": "ls" if fallback else "mlsx", "now": now if what != "list2" else res.get("later", now), "off": off, "truth": truth,
                       "timectl": bool(res.get("timectl", False)),
                       "got": [conv(g) for g in res.get(what, [])], "what": what, "error": err or None, "zone": zone})
     return {"crash": None, "cases": cases}
